@@ -68,6 +68,23 @@ def run(chk):
                 if got2 != exp:
                     chk.diverge({"clause": "result-reflected", "op": op, "class": cls, "autoconvert": ac}, dict(case, observed=got2))
         chk.traces += len(cases)
+        # ordering across dimensions raises DimensionalityError also while a context linking them is active
+        ctx = pint_context()
+        ureg.add_context(ctx)
+        with ureg.context("link"):
+            for st in cases:
+                a, b, op = st["a"], st["b"], st["op"]
+                if b["num"] or op not in ("lt", "le", "gt", "ge") or st["res"]["k"] != "dimerr":
+                    continue
+                x, y = qr.mkq(ureg, a), qr.mkq(ureg, b)
+                try:
+                    got = qr.project(qr.apply(op, x, y))
+                except Exception as e:
+                    got = {"k": qr.kind_of_exception(e)}
+                chk.case(("ctx", ac, op, a, b))
+                if got != {"k": "dimerr"}:
+                    chk.diverge({"clause": "cross-dimension-ordering-under-context", "op": op, "observed": got["k"], "autoconvert": ac},
+                                {"registry": lines, "a": a, "b": b, "op": op, "context": "[L] <-> [T], [L] <-> [Th]"})
         # NaN: never equal, not even to itself; != is the negation (relational, harness side)
         for uname in ("m", "cm", "pct", "delta_C"):
             q = ureg.Quantity(math.nan, uname)
@@ -85,6 +102,14 @@ def run(chk):
              "comparison operator / hash) executed on a materialised registry; distinct by (mode, op, a, b); non-trivial = operands "
              "in different units; plus constructed equal / adjacent pairs over the bundled registry validated by Trace_Reg",
         exhaustive=True)
+
+
+def pint_context():
+    import pint
+    c = pint.Context("link")
+    for x, y, u in (("[L]", "[T]", "s/m"), ("[T]", "[L]", "m/s"), ("[L]", "[Th]", "K/m"), ("[Th]", "[L]", "m/K")):
+        c.add_transformation(x, y, lambda ureg, v, u=u: v * ureg.Quantity(1, u))
+    return c
 
 
 def drive_default(chk, rng, n):
